@@ -569,6 +569,18 @@ func (g *Gen) heapTerm(st *State, key, sort string) string {
 		g.unsupported("heap component " + key + " used at two sorts: " + old + " / " + sort)
 	}
 	g.heapSorts[key] = sort
+	if g.immutableKey(key) {
+		// package-level variables of packages outside the module (io.EOF, ...) are treated as constants
+		name := symq("H:" + key + "@const")
+		if !g.declared[name] {
+			g.declared[name] = true
+			g.emit("(declare-const " + name + " " + sort + ")")
+			if !g.discovery {
+				g.trustedUsed["immutable package variable: "+strings.TrimPrefix(key, "G:")] = true
+			}
+		}
+		return name
+	}
 	name := symq("H:" + key + "@" + st.epoch)
 	if !g.declared[name] {
 		g.declared[name] = true
@@ -676,4 +688,11 @@ func structFieldIndex(t types.Type, name string) (int, types.Type, bool) {
 		}
 	}
 	return 0, nil, false
+}
+
+func (g *Gen) immutableKey(key string) bool {
+	if !strings.HasPrefix(key, "G:") {
+		return false
+	}
+	return !strings.HasPrefix(key[2:], g.W.modPath)
 }
